@@ -7,6 +7,7 @@ pub mod c01;
 pub mod c03;
 pub mod c04;
 pub mod c08;
+pub mod c10;
 pub mod c11;
 pub mod c12;
 pub mod c13;
@@ -35,7 +36,7 @@ pub struct Prop {
 }
 
 pub fn all() -> Vec<Prop> {
-    vec![c01::prop(), c03::prop(), c04::prop(), c08::prop(), c11::prop(), c12::prop(), c13::prop(), c16::prop(), c18::prop(), c19::prop()]
+    vec![c01::prop(), c03::prop(), c04::prop(), c08::prop(), c10::prop(), c11::prop(), c12::prop(), c13::prop(), c16::prop(), c18::prop(), c19::prop()]
 }
 
 pub fn find(id: &str) -> Option<Prop> {
